@@ -78,3 +78,10 @@ Example ex_graceful :
   fold_left (fun st sg => exit_handler sg st) [2] (mkGS [mkG true 0; mkG false 0] false []) =
   mkGS [mkG true 1; mkG false 0] false [130].
 Proof. vm_compute. split; reflexivity. Qed.
+
+(* two tasks inside one wrapper, leaving in the order they entered (not LIFO): the one still inside is
+   cancelled, the one that left is not, a later entry is refused *)
+Example ex_wrapper_two_tasks :
+  let w := wrun [WEnter 0; WEnter 1; WExit 0; WEnter 0; WExit 0; WCancel; WEnter 2] in
+  wcancelled w = [1] /\ wrefused w = [2] /\ wspec 1 [WEnter 0; WEnter 1; WExit 0; WEnter 0; WExit 0] = true.
+Proof. vm_compute. repeat split; reflexivity. Qed.
